@@ -258,6 +258,10 @@ impl<T> Slab<T> {
         ensures r@ == Map::<usize, T>::empty(),
     { unimplemented!() }
     #[verifier::external_body]
+    pub fn with_capacity(capacity: usize) -> (r: Slab<T>)
+        ensures r@ == Map::<usize, T>::empty(),
+    { unimplemented!() }
+    #[verifier::external_body]
     pub fn clear(&mut self)
         ensures final(self)@ == Map::<usize, T>::empty(),
     { unimplemented!() }
@@ -560,6 +564,16 @@ pub mod channel {
 //@rule X6.world * s/\.try_recv\(\)/.try_recv(Tracked(w))/
 //@end
 
+//@extract id=channel::Receiver::try_receive file=crux_core/src/capability/channel.rs within="impl<T> Receiver<T>" item="fn try_receive" props=C02+C03
+//@expect pub fn try_receive(&self) -> Result<Option<T>, ()>
+//@sig pub fn try_receive(&self, Tracked(w): Tracked<&mut World>) -> (r: Result<Option<T>, ()>)
+//@contract
+            ensures
+                r matches Ok(Some(v)) <==> queue_len(*old(w), self.inner.role()) > 0, // [C02+C03/try_receive/a-value-iff-queue-non-empty]
+                r matches Ok(Some(v)) ==> popped(*old(w), *final(w), self.inner.role(), val_id(v)), // [C02+C03/try_receive/takes-exactly-the-head-FIFO]
+                !(r matches Ok(Some(_))) ==> *final(w) == *old(w), // [C02+C03/try_receive/empty-or-disconnected-changes-nothing]
+//@end
+
 //@extract id=channel::Receiver::drain file=crux_core/src/capability/channel.rs within="impl<T> Receiver<T>" item="fn drain" props=C01
 //@expect pub fn drain(&self) -> Drain<T>
 //@sig pub fn drain(&self) -> (r: Drain<T>)
@@ -636,6 +650,17 @@ pub mod channel {
     #[verifier::reject_recursive_types(T)]
 //@rule X3.auto-traits 1 s/ \+ Send \+ Sync>/>/
 //@rule X2.vis 1 s/\binner:/pub inner:/
+//@end
+
+//@extract id=channel::channel file=crux_core/src/capability/channel.rs item="fn channel" props=C01
+//@expect pub(crate) fn channel<T>() -> (Sender<T>, Receiver<T>) where T: Send + 'static,
+//@sig pub fn channel<T>(Ghost(role): Ghost<Role>) -> (r: (Sender<T>, Receiver<T>)) where T: 'static,
+//@contract
+        ensures
+            r.1.inner.role() == role, // [C01/channel/the-receiver-is-the-new-channels-own]
+            forall|t: T| #![auto] r.0.inner.accepts(t), // [C01/channel/the-sender-takes-every-value]
+            forall|t: T, w1: World, w2: World| #![auto] r.0.inner.effect(t, w1, w2) == pushed(w1, w2, role, val_id(t)), // [C01+C03/channel/sending-appends-to-the-same-channel-the-receiver-reads]
+//@rule X6.channel-role 1 s/crossbeam_channel::unbounded\(\)/crossbeam_channel::unbounded(Ghost(role))/
 //@end
 
     impl<T> Clone for Sender<T> {
@@ -1258,7 +1283,88 @@ pub mod command_m {
 //@end
     }
 
+    // ---- models used by the constructors
+    /// `crossbeam_channel::unbounded()` for one of the command's own queues: the World tracks the
+    /// queues of ONE command, so creating that command's channel (rule X6.channel-role gives the
+    /// role) starts the role's queue afresh - a new channel is empty
+    #[verifier::external_body]
+    pub fn new_channel<T>(Tracked(w): Tracked<&mut World>, Ghost(role): Ghost<Role>) -> (r: (Sender<T>, Receiver<T>))
+        ensures
+            r.0.role() == role, r.1.role() == role,
+            queue_len(*final(w), role) == 0,
+            match role {
+                Role::CSpawn => *final(w) == (World { c_spawn: 0, ..*old(w) }),
+                Role::CReady => *final(w) == (World { c_ready: 0, ..*old(w) }),
+                Role::CEvents => *final(w) == (World { c_events: Seq::<int>::empty(), ..*old(w) }),
+                Role::CEffects => *final(w) == (World { c_effects: Seq::<int>::empty(), ..*old(w) }),
+                _ => *final(w) == *old(w),
+            },
+    { unimplemented!() }
+    /// `Default::default()` for an `Arc<AtomicBool>`: a new flag, false
+    #[verifier::external_body]
+    pub fn new_flag(Tracked(w): Tracked<&mut World>, Ghost(flag): Ghost<Flag>) -> (r: Arc<AtomicBool>)
+        ensures
+            r.flag() == flag,
+            flag is CommandAborted ==> *final(w) == (World { c_aborted: false, ..*old(w) }),
+            !(flag is CommandAborted) ==> *final(w) == *old(w),
+    { unimplemented!() }
+    #[verifier::external_body]
+    pub fn new_atomic_waker() -> (r: Arc<AtomicWaker>)
+    { unimplemented!() }
+    /// a task-making closure that only builds a future (sends, spawns and emits nothing while
+    /// being called): true of `|_ctx| ready(())` and of the hosting closures of Command::all/and
+    pub uninterp spec fn is_quiet<F>(f: F) -> bool;
+    /// ASSUMED (havoc): calling the user's task-making closure runs user code with the context:
+    /// it may emit, send and spawn (append only) - unless it is quiet
+    #[verifier::external_body]
+    pub fn call_task_maker<F: FnOnce(C) -> Fut, C, Fut>(Tracked(w): Tracked<&mut World>, f: F, ctx: C) -> (r: Fut)
+        ensures
+            is_quiet(f) ==> *final(w) == *old(w),
+            cmd_outputs_appended(*old(w), *final(w)),
+            final(w).c_spawn >= old(w).c_spawn,
+            *final(w) == (World { c_spawn: final(w).c_spawn, c_events: final(w).c_events, c_effects: final(w).c_effects, ..*old(w) }),
+    { unimplemented!() }
+    #[verifier::external_body]
+    pub struct ReadyFuture { _p: u8 }
+    #[verifier::external_body]
+    pub fn ready_future() -> ReadyFuture { unimplemented!() }
+    /// ASSUMED, attached by counted rules to exactly the closure texts `|_ctx| futures::future::ready(())`
+    /// (Command::done) and `|ctx| c.host(ctx.effects, ctx.events).map(|_| ())` (Command::all / and):
+    /// building such a future sends, spawns and emits nothing
+    #[verifier::external_body]
+    pub fn quiet<F>(f: F) -> (r: F)
+        ensures r == f, is_quiet(r),
+    { unimplemented!() }
+
+    /// X17/X5: `c.host(ctx.effects, ctx.events).map(|_| ())` - the future that forwards the hosted
+    /// command's outputs into the host's channels (CommandSink::start_send, proved above), opaque
+    #[verifier::external_body]
+    pub struct HostFuture { _p: u8 }
+    #[verifier::external_body]
+    pub fn host_future<Effect, Event>(c: Command<Effect, Event>, ctx: CommandContext<Effect, Event>) -> HostFuture
+    { unimplemented!() }
+
+//@extract id=cmd.JoinHandle file=crux_core/src/command/executor.rs item="struct JoinHandle"
+//@rule X2.vis * s/pub\(crate\)/pub/
+//@end
+
     impl<Effect, Event> CommandContext<Effect, Event> {
+//@extract id=CommandContext::spawn file=crux_core/src/command/context.rs within="impl<Effect, Event> CommandContext<Effect, Event>" item="fn spawn" props=C01+C06
+//@expect pub fn spawn<F, Fut>(&self, make_future: F) -> JoinHandle where F: FnOnce(CommandContext<Effect, Event>) -> Fut, Fut: Future<Output = ()> + Send + 'static,
+//@sig pub fn spawn<F, Fut>(&self, Tracked(w): Tracked<&mut World>, make_future: F) -> (r: JoinHandle) where F: FnOnce(CommandContext<Effect, Event>) -> Fut,
+//@contract
+            requires
+                self.tasks.role() is CSpawn,
+            ensures
+                final(w).c_spawn >= old(w).c_spawn + 1, // [C01/CommandContext::spawn/the-new-task-enters-the-commands-spawn-queue]
+                is_quiet(make_future) ==> *final(w) == (World { c_spawn: old(w).c_spawn + 1, ..*old(w) }), // [C01/CommandContext::spawn/exactly-one-task-is-queued-and-nothing-else-changes]
+                !(r.aborted.flag() is CommandAborted), // [C06/CommandContext::spawn/aborting-the-join-handle-does-not-abort-the-command]
+//@rule X6.channel-role 1 s/crossbeam_channel::unbounded\(\)/new_channel(Tracked(w), Ghost(Role::Other))/
+//@rule X6.flag-role 2 s/(finished|aborted): Default::default\(\),/\1: new_flag(Tracked(w), Ghost(Flag::Other)),/
+//@rule X6.user-code 1 s/let future = make_future\(ctx\);/let future = call_task_maker(Tracked(w), make_future, ctx);/
+//@rule X5.boxed 1 s/future\.boxed\(\)/boxed(future)/
+//@end
+
 //@extract id=CommandContext::send_event file=crux_core/src/command/context.rs within="impl<Effect, Event> CommandContext<Effect, Event>" item="fn send_event" props=C03
 //@expect pub fn send_event(&self, event: Event)
 //@sig pub fn send_event(&self, Tracked(w): Tracked<&mut World>, event: Event)
@@ -1271,13 +1377,125 @@ pub mod command_m {
 //@end
     }
 
+    // ---- command/stream.rs: the sink a hosted (nested) command's outputs are forwarded into
+//@extract id=cmd.CommandSink file=crux_core/src/command/stream.rs item="struct CommandSink"
+//@rule X2.vis * s/pub\(crate\)/pub/
+//@end
+//@extract id=cmd.HostedCommandError file=crux_core/src/command/stream.rs item="enum HostedCommandError"
+//@rule X2.vis * s/pub\(crate\)/pub/
+//@end
+    impl<Effect, Event> CommandSink<Effect, Event> {
+//@extract id=CommandSink::start_send file=crux_core/src/command/stream.rs within="impl<Effect, Event> Sink<CommandOutput<Effect, Event>> for CommandSink<Effect, Event>" item="fn start_send" props=C01+C03
+//@expect fn start_send( self: Pin<&mut Self>, item: CommandOutput<Effect, Event>, ) -> Result<(), Self::Error>
+//@sig pub fn start_send(&mut self, Tracked(w): Tracked<&mut World>, item: CommandOutput<Effect, Event>) -> (r: Result<(), HostedCommandError>)
+//@contract
+            ensures
+                r is Ok,
+                item matches CommandOutput::Effect(e) ==> pushed(*old(w), *final(w), old(self).effects.role(), val_id(e)), // [C01/CommandSink::start_send/an-effect-goes-to-the-hosts-effect-channel-exactly-once]
+                item matches CommandOutput::Event(e) ==> pushed(*old(w), *final(w), old(self).events.role(), val_id(e)), // [C01+C03/CommandSink::start_send/an-event-goes-to-the-hosts-event-channel-exactly-once]
+                *final(self) == *old(self),
+//@rule X8.closure-wildcard * s/\|_\|/|_e|/
+//@end
+    }
+
+    impl<Effect, Event> Clone for CommandContext<Effect, Event> {
+//@extract id=CommandContext::clone file=crux_core/src/command/context.rs within="impl<Effect, Event> Clone for CommandContext<Effect, Event>" item="fn clone" props=C01
+//@expect fn clone(&self) -> Self
+//@sig fn clone(&self) -> (r: Self)
+//@contract
+            ensures
+                r.effects.role() == self.effects.role() && r.events.role() == self.events.role() && r.tasks.role() == self.tasks.role(), // [C01/CommandContext::clone/a-clone-feeds-the-same-three-queues]
+//@end
+    }
+
     impl<Effect, Event> Command<Effect, Event> {
         /// the channel ends are this command's own queues (established by Command::new)
         pub open spec fn wf(&self) -> bool {
             self.effects.role() is CEffects && self.events.role() is CEvents
             && self.ready_queue.role() is CReady && self.spawn_queue.role() is CSpawn
             && self.ready_sender.role() is CReady && self.aborted.flag() is CommandAborted
+            && self.context.effects.role() is CEffects && self.context.events.role() is CEvents && self.context.tasks.role() is CSpawn
         }
+
+//@extract id=Command::new file=crux_core/src/command/mod.rs within="impl<Effect, Event> Command<Effect, Event>" item="fn new" props=C01+C06
+//@expect pub fn new<F, Fut>(create_task: F) -> Self where F: FnOnce(CommandContext<Effect, Event>) -> Fut, Fut: Future<Output = ()> + Send + 'static,
+//@sig pub fn new<F, Fut>(Tracked(w): Tracked<&mut World>, create_task: F) -> (r: Self) where F: FnOnce(CommandContext<Effect, Event>) -> Fut,
+//@contract
+            ensures
+                r.wf(), // [C01+C06/Command::new/the-queue-ends-the-context-and-the-abort-flag-are-the-new-commands-own]
+                final(w).c_ready == 1, // [C01/Command::new/the-main-task-is-made-ready-exactly-once]
+                !(r.tasks@.dom() =~= Set::<usize>::empty()) && (forall|k1: usize, k2: usize| #![auto] r.tasks@.dom().contains(k1) && r.tasks@.dom().contains(k2) ==> k1 == k2), // [C01/Command::new/holds-exactly-the-main-task]
+                !final(w).c_aborted, // [C06/Command::new/starts-not-aborted]
+                is_quiet(create_task) ==> final(w).c_spawn == 0 && final(w).c_events.len() == 0 && final(w).c_effects.len() == 0, // [C01/Command::new/starts-with-empty-queues]
+//@rule X6.channel-role 1 s/let \(effect_sender, effect_receiver\) = crossbeam_channel::unbounded\(\);/let (effect_sender, effect_receiver) = new_channel(Tracked(w), Ghost(Role::CEffects));/
+//@rule X6.channel-role 1 s/let \(event_sender, event_receiver\) = crossbeam_channel::unbounded\(\);/let (event_sender, event_receiver) = new_channel(Tracked(w), Ghost(Role::CEvents));/
+//@rule X6.channel-role 1 s/let \(ready_sender, ready_receiver\) = crossbeam_channel::unbounded\(\);/let (ready_sender, ready_receiver) = new_channel(Tracked(w), Ghost(Role::CReady));/
+//@rule X6.channel-role 1 s/let \(spawn_sender, spawn_receiver\) = crossbeam_channel::unbounded\(\);/let (spawn_sender, spawn_receiver) = new_channel(Tracked(w), Ghost(Role::CSpawn));/
+//@rule X6.channel-role 1 s/let \(_, waker_receiver\) = crossbeam_channel::unbounded\(\);/let (_, waker_receiver) = new_channel(Tracked(w), Ghost(Role::Other));/
+//@rule X11.module-path 1 s/context::CommandContext \{/CommandContext {/
+//@rule X6.flag-role 1 s/let aborted: Arc<AtomicBool> = Default::default\(\);/let aborted: Arc<AtomicBool> = new_flag(Tracked(w), Ghost(Flag::CommandAborted));/
+//@rule X6.flag-role 1 s/finished: Default::default\(\),/finished: new_flag(Tracked(w), Ghost(Flag::Other)),/
+//@rule X5.atomic-waker 1 s/waker: Default::default\(\),/waker: new_atomic_waker(),/
+//@rule X6.user-code 1 s/create_task\(context\.clone\(\)\)\.boxed\(\)/boxed(call_task_maker(Tracked(w), create_task, context.clone()))/
+//@end
+
+//@extract id=Command::done file=crux_core/src/command/mod.rs within="impl<Effect, Event> Command<Effect, Event>" item="fn done" props=C01+C07
+//@expect pub fn done() -> Self
+//@sig pub fn done(Tracked(w): Tracked<&mut World>) -> (r: Self)
+//@contract
+            ensures
+                r.wf(),
+                final(w).c_ready == 1 && final(w).c_spawn == 0 && final(w).c_events.len() == 0 && final(w).c_effects.len() == 0 && !final(w).c_aborted, // [C01+C07/Command::done/a-new-command-with-one-ready-task-and-nothing-queued]
+                !(r.tasks@.dom() =~= Set::<usize>::empty()) && (forall|k1: usize, k2: usize| #![auto] r.tasks@.dom().contains(k1) && r.tasks@.dom().contains(k2) ==> k1 == k2),
+//@rule X5.ready 1 s/Command::new\(\|_ctx\| futures::future::ready\(\(\)\)\)/Command::new(Tracked(w), quiet(|_ctx: CommandContext<Effect, Event>| -> (res: ReadyFuture) { ready_future() }))/
+//@end
+
+//@extract id=Command::all file=crux_core/src/command/mod.rs within="impl<Effect, Event> Command<Effect, Event>" item="fn all" props=C01+C06
+//@expect pub fn all<I>(commands: I) -> Self where I: IntoIterator<Item = Self>, Effect: Unpin, Event: Unpin,
+//@sig pub fn all(Tracked(w): Tracked<&mut World>, commands: Vec<Self>) -> (r: Self)
+//@contract
+            ensures
+                r.wf(), // [C06/Command::all/the-result-is-a-command-of-its-own-not-one-of-the-given-ones]
+                final(w).c_spawn == commands.len(), // [C01+C06/Command::all/every-given-command-is-hosted-by-its-own-task-of-the-new-command]
+                final(w).c_ready == 1 && !final(w).c_aborted && final(w).c_events.len() == 0 && final(w).c_effects.len() == 0, // [C06/Command::all/the-new-command-starts-unaborted-with-nothing-queued]
+//@rule X6.world 1 s/Command::done\(\)/Command::done(Tracked(w))/
+//@rule X1.for-iterator 1 s/for c in commands \{/for c in it: commands {/
+//@rule X5.hosting-closure 1 s/command\.spawn\(\|ctx\| c\.host\(ctx\.effects, ctx\.events\)\.map\(\|_\| \(\)\)\)/command.spawn(Tracked(w), quiet(|ctx: CommandContext<Effect, Event>| -> (res: HostFuture) { host_future(c, ctx) }));/
+//@loops 1
+//@loop 1
+                invariant
+                    command.wf(),
+                    w.c_spawn == it.index@, // [C01+C06/Command::all/loop/one-task-queued-per-command-taken-so-far]
+                    w.c_ready == 1 && !w.c_aborted && w.c_events.len() == 0 && w.c_effects.len() == 0,
+//@end
+
+//@extract id=Command::and file=crux_core/src/command/mod.rs within="impl<Effect, Event> Command<Effect, Event>" item="fn and" props=C01+C06
+//@expect pub fn and(mut self, other: Self) -> Self where Effect: Unpin, Event: Unpin,
+//@sig pub fn and(self, Tracked(w): Tracked<&mut World>, other: Self) -> (r: Self)
+//@contract
+            requires
+                self.wf(),
+            ensures
+                r == self, // [C06/Command::and/the-result-is-this-command-itself]
+                *final(w) == (World { c_spawn: old(w).c_spawn + 1, ..*old(w) }), // [C01+C06/Command::and/the-other-command-is-hosted-by-one-new-task-and-nothing-else-changes]
+//@rule X5.hosting-closure 1 s/self\.spawn\(\|ctx\| other\.host\(ctx\.effects, ctx\.events\)\.map\(\|_\| \(\)\)\)/self.spawn(Tracked(w), quiet(|ctx: CommandContext<Effect, Event>| -> (res: HostFuture) { host_future(other, ctx) }))/
+//@rule X19.mut-self * s/\bself\b/this/
+//@entry
+            let mut this = self;
+//@end
+
+//@extract id=Command::spawn file=crux_core/src/command/mod.rs within="impl<Effect, Event> Command<Effect, Event>" item="fn spawn" props=C01
+//@expect pub fn spawn<F, Fut>(&mut self, create_task: F) where F: FnOnce(CommandContext<Effect, Event>) -> Fut, Fut: Future<Output = ()> + Send + 'static,
+//@sig pub fn spawn<F, Fut>(&mut self, Tracked(w): Tracked<&mut World>, create_task: F) where F: FnOnce(CommandContext<Effect, Event>) -> Fut,
+//@contract
+            requires
+                old(self).wf(),
+            ensures
+                *final(self) == *old(self),
+                final(w).c_spawn >= old(w).c_spawn + 1, // [C01/Command::spawn/the-new-task-enters-the-commands-spawn-queue]
+                is_quiet(create_task) ==> *final(w) == (World { c_spawn: old(w).c_spawn + 1, ..*old(w) }), // [C01/Command::spawn/exactly-one-task-is-queued-and-nothing-else-changes]
+//@rule X6.world 1 s/self\.context\.spawn\(/self.context.spawn(Tracked(w), /
+//@end
 
 //@extract id=Command::run_task file=crux_core/src/command/executor.rs within="impl<Effect, Event> Command<Effect, Event>" item="fn run_task" props=C01+C06+C07+C13
 //@expect pub(crate) fn run_task(&mut self, task_id: TaskId) -> TaskState
